@@ -36,6 +36,18 @@ ARRAY_CTORS = ('array', 'asarray')     # np.array(list) is the list for our purp
 MAX_STEPS = 20000
 
 
+class _BList(list):
+    """element-wise boolean result (np.isnan of a sequence)"""
+    pass
+
+
+def _counter(seq):
+    out = {}
+    for x in seq:
+        out[x] = out.get(x, 0) + 1
+    return out
+
+
 class Folder:
     def __init__(self, prog, module):
         self.prog, self.module = prog, module
@@ -75,6 +87,14 @@ class Folder:
                 fo.steps = self.steps
                 return fo.ev(t[3], {})
         raise CannotFold('name %s' % e.id)
+
+    def e_Attribute(self, e, env):
+        if isinstance(e.value, ast.Name) and e.value.id in ('np', 'numpy', 'math') and e.value.id not in env:
+            if e.attr in ('nan', 'NaN', 'NAN'):
+                return float('nan')
+            if e.attr == 'inf':
+                return float('inf')
+        raise CannotFold('attribute %s' % ast.unparse(e))
 
     def e_Tuple(self, e, env):
         return tuple(self.ev(x, env) for x in e.elts)
@@ -201,7 +221,32 @@ class Folder:
                 and len(args) == 1 and not kwargs and isinstance(args[0], (list, tuple)) and args[0]:
             # first position of the extreme value (NumPy's tie rule)
             return list(args[0]).index(min(args[0]) if fn.attr == 'argmin' else max(args[0]))
-        if isinstance(fn, ast.Attribute) and fn.attr in ('keys', 'values', 'items', 'get', 'lower', 'upper', 'strip', 'index', 'count'):
+        if isinstance(fn, ast.Attribute) and fn.attr == 'isnan' and isinstance(fn.value, ast.Name) and fn.value.id in ('np', 'numpy', 'math') \
+                and fn.value.id not in env and len(args) == 1 and not kwargs:
+            x = args[0]
+            if isinstance(x, (list, tuple)):
+                if not all(isinstance(v, (int, float)) for v in x):
+                    raise CannotFold('isnan of a nested value')
+                return _BList(v != v for v in x)
+            if isinstance(x, (int, float)):
+                return x != x
+            raise CannotFold('isnan argument')
+        if isinstance(fn, ast.Attribute) and fn.attr in ('any', 'all') and not args and not kwargs and not (
+                isinstance(fn.value, ast.Name) and fn.value.id in ('np', 'numpy')):
+            recv = self.ev(fn.value, env)
+            if isinstance(recv, _BList):
+                return any(recv) if fn.attr == 'any' else all(recv)
+            raise CannotFold('%s of a value that is not an element-wise test' % fn.attr)
+        if isinstance(fn, ast.Attribute) and fn.attr in ('any', 'all') and isinstance(fn.value, ast.Name) and fn.value.id in ('np', 'numpy') \
+                and len(args) == 1 and not kwargs and isinstance(args[0], _BList):
+            return any(args[0]) if fn.attr == 'any' else all(args[0])
+        if isinstance(fn, ast.Name) and fn.id == 'Counter' and fn.id not in env and len(args) == 1 and not kwargs:
+            try:
+                return _counter(args[0])
+            except TypeError:
+                raise CannotFold('Counter of unhashable values')
+        if isinstance(fn, ast.Attribute) and fn.attr in ('keys', 'values', 'items', 'get', 'lower', 'upper', 'strip', 'index', 'count', 'replace',
+                                                        'rstrip', 'lstrip', 'endswith', 'startswith', 'casefold', 'title', 'removesuffix', 'removeprefix'):
             recv = self.ev(fn.value, env)
             if isinstance(recv, (dict, str, list, tuple)):
                 try:
@@ -273,9 +318,13 @@ class Folder:
                 c = s.value
                 if isinstance(c, ast.Constant):
                     continue
-                if isinstance(c, ast.Call) and isinstance(c.func, ast.Attribute) and c.func.attr in ('append', 'extend', 'add', 'update') \
+                if isinstance(c, ast.Call) and isinstance(c.func, ast.Attribute) and c.func.attr in ('append', 'extend', 'add', 'update', 'sort', 'reverse') \
                         and isinstance(c.func.value, ast.Name) and c.func.value.id in env:
-                    getattr(env[c.func.value.id], c.func.attr)(*[self.ev(a, env) for a in c.args])
+                    try:
+                        getattr(env[c.func.value.id], c.func.attr)(*[self.ev(a, env) for a in c.args],
+                                                                   **{k_.arg: self.ev(k_.value, env) for k_ in c.keywords if k_.arg})
+                    except (AttributeError, TypeError) as ex:
+                        raise CannotFold('%s: %s' % (c.func.attr, ex))
                     continue
                 raise CannotFold('expression statement')
             elif isinstance(s, ast.Raise):
